@@ -227,6 +227,10 @@ def segmentio(ctx, d, thorough):
         # a record no broker takes (more than a megabyte) among ordinary ones: it costs its batch, not what follows
         {"batch_size": 4, "pflush": 1, "steps": [{"hand": 4}, {"hand": 4, "big": True}, {"hand": 8}], "close": True, "expect": "tail"},
     ]
+    # a partition leader that is away for 2.5 s / 3.5 s (every request to partition 0 refused, each answer after 300 ms) while
+    # the Writer may try 12 times: nothing is lost, nothing overtakes - however short the driver's connect timeout is
+    scripts += [{"batch_size": 4, "pflush": 1, "steps": [{"hand": 12}], "heal_ms": h, "delay_ms": 300, "max_attempts": 12, "connect_timeout": 1,
+                 "close": True, "expect": "all"} for h in (2500, 3500, 3000)]
     if thorough:
         scripts += [{"batch_size": 3, "pflush": 1, "steps": [{"hand": 30}], "refuse": [[k, k % 2]], "close": True, "expect": "tail"} for k in range(1, 7)]
     for i, sc in enumerate(scripts):
@@ -242,7 +246,7 @@ def segmentio(ctx, d, thorough):
         raise vlib.Infra("segmentio driver failed:\n" + log[-1500:])
     for sc, r in zip(scripts, json.load(open(out))):
         ctx.count(["segmentio", sc["id"], sc.get("refuse"), sc["steps"]], nontrivial=True)
-        what = "kafka.segmentio producer (batch %d, periodic flush %d s, script %s%s)" % (sc["batch_size"], sc["pflush"], sc["steps"], ", refusals %s" % sc["refuse"] if sc.get("refuse") else "")
+        what = "kafka.segmentio producer (batch %d, periodic flush %d s, script %s%s)" % (sc["batch_size"], sc["pflush"], sc["steps"], (", refusals %s" % sc["refuse"] if sc.get("refuse") else "") + (", partition 0 away for %d ms, %d attempts, connect timeout %d s" % (sc["heal_ms"], sc["max_attempts"], sc["connect_timeout"]) if sc.get("heal_ms") else ""))
         if r.get("infra"):
             raise vlib.Infra("segmentio driver: " + r["infra"])
         if r.get("hung"):
